@@ -547,3 +547,172 @@ Proof.
     rewrite forallb_forall in H2. specialize (H2 t (nth_error_In c i En)).
     apply negb_true_iff in H2. rewrite H2. reflexivity.
 Qed.
+
+(* ------------------------------------------------------------------------------------- *)
+(* 4. mutual exclusion in the machine (what "synchronised by a common lock" means, C33)   *)
+(* ------------------------------------------------------------------------------------- *)
+(* For arbitrary programs (no discipline needed): in every configuration reachable from "nobody
+   holds anything", a lock held in write mode by one goroutine is held by nobody else, in any
+   mode, and only once by its holder. *)
+
+Definition cnt (l : lock) (h : list hl) : nat := length (filter (fun x => N.eqb (fst x) l) h).
+Definition cntw (l : lock) (h : list hl) : nat :=
+  length (filter (fun x => N.eqb (fst x) l && mode_eqb (snd x) W) h).
+Definition tot (f : list hl -> nat) (c : cfg) : nat := fold_right plus O (map (fun t => f (held t)) c).
+
+Definition excl_inv (c : cfg) : Prop := forall l, tot (cntw l) c = O \/ tot (cnt l) c = 1%nat.
+
+Lemma cntw_le_cnt : forall l h, (cntw l h <= cnt l h)%nat.
+Proof.
+  intros l h. unfold cntw, cnt. induction h as [|[lx mx] r IH]; simpl; [lia|].
+  destruct (N.eqb lx l); simpl; [|exact IH]. destruct (mode_eqb mx W); simpl; lia.
+Qed.
+
+Lemma tot_le : forall f g c, (forall h, (f h <= g h)%nat) -> (tot f c <= tot g c)%nat.
+Proof.
+  intros f g c H. unfold tot. induction c as [|t r IH]; simpl; [lia|]. specialize (H (held t)). lia.
+Qed.
+
+Lemma tot_update : forall f c i t u, nth_error c i = Some t ->
+  (tot f (update c i u) + f (held t) = tot f c + f (held u))%nat.
+Proof.
+  intros f. induction c as [|y r IH]; intros i t u H.
+  - destruct i; discriminate.
+  - destruct i; simpl in *.
+    + injection H as ->. unfold tot. simpl. lia.
+    + specialize (IH i t u H). unfold tot in *. simpl. lia.
+Qed.
+
+Lemma tot_ge_one : forall f c i t, nth_error c i = Some t -> (f (held t) <= tot f c)%nat.
+Proof.
+  intros f. induction c as [|y r IH]; intros i t H; [destruct i; discriminate|].
+  destruct i; simpl in H.
+  - injection H as ->. unfold tot. simpl. lia.
+  - specialize (IH i t H). unfold tot in *. simpl. lia.
+Qed.
+
+Lemma tot_ge_two : forall f c i j t u, nth_error c i = Some t -> nth_error c j = Some u -> i <> j ->
+  (f (held t) + f (held u) <= tot f c)%nat.
+Proof.
+  intros f. induction c as [|y r IH]; intros i j t u Hi Hj Hne; [destruct i; discriminate|].
+  destruct i, j; simpl in Hi, Hj.
+  - congruence.
+  - injection Hi as ->. pose proof (tot_ge_one f r j u Hj). unfold tot in *. simpl. lia.
+  - injection Hj as ->. pose proof (tot_ge_one f r i t Hi). unfold tot in *. simpl. lia.
+  - assert (i <> j) by congruence. specialize (IH i j t u Hi Hj H). unfold tot in *. simpl. lia.
+Qed.
+
+Lemma holds_cnt : forall l t, holds l t = true <-> (0 < cnt l (held t))%nat.
+Proof.
+  intros l t. unfold holds, cnt. induction (held t) as [|[lx mx] r IH]; simpl.
+  - split; [discriminate | lia].
+  - destruct (N.eqb lx l); simpl; [split; [lia | reflexivity] | exact IH].
+Qed.
+
+Lemma holds_w_cntw : forall l t, holds_w l t = true <-> (0 < cntw l (held t))%nat.
+Proof.
+  intros l t. unfold holds_w, cntw. induction (held t) as [|[lx mx] r IH]; simpl.
+  - split; [discriminate | lia].
+  - destruct (N.eqb lx l && mode_eqb mx W); simpl; [split; [lia | reflexivity] | exact IH].
+Qed.
+
+Lemma nobody_tot : forall (p : lock -> thread -> bool) (f : lock -> list hl -> nat) l c,
+  (forall t, p l t = true <-> (0 < f l (held t))%nat) ->
+  existsb (p l) c = false -> tot (f l) c = O.
+Proof.
+  intros p f l c Hp H. unfold tot. induction c as [|t r IH]; simpl in *; [reflexivity|].
+  apply orb_false_iff in H. destruct H as [H1 H2]. rewrite (IH H2).
+  destruct (f l (held t)) eqn:E; [reflexivity|].
+  assert (p l t = true) by (apply Hp; lia). congruence.
+Qed.
+
+Lemma cnt_remove_one : forall l x h,
+  cnt l (remove_one x h) = cnt l h \/ S (cnt l (remove_one x h)) = cnt l h.
+Proof.
+  intros l x h. unfold cnt. induction h as [|[ly my] r IH]; simpl; [left; reflexivity|].
+  destruct (hl_eqb x (ly, my)).
+  - destruct (N.eqb ly l); simpl; [right; reflexivity | left; reflexivity].
+  - simpl. destruct (N.eqb ly l); simpl; [|exact IH]. destruct IH as [IH|IH]; [left | right]; lia.
+Qed.
+
+Lemma cntw_remove_one : forall l x h, (cntw l (remove_one x h) <= cntw l h)%nat.
+Proof.
+  intros l x h. unfold cntw. induction h as [|[ly my] r IH]; simpl; [lia|].
+  destruct (hl_eqb x (ly, my)).
+  - destruct (N.eqb ly l && mode_eqb my W); simpl; lia.
+  - simpl. destruct (N.eqb ly l && mode_eqb my W); simpl; lia.
+Qed.
+
+Lemma cnt_cons : forall l l0 m h, cnt l ((l0, m) :: h) = ((if N.eqb l0 l then 1 else 0) + cnt l h)%nat.
+Proof. intros. unfold cnt. simpl. destruct (N.eqb l0 l); reflexivity. Qed.
+
+Lemma cntw_cons : forall l l0 m h,
+  cntw l ((l0, m) :: h) = ((if N.eqb l0 l && mode_eqb m W then 1 else 0) + cntw l h)%nat.
+Proof. intros. unfold cntw. simpl. destruct (N.eqb l0 l && mode_eqb m W); reflexivity. Qed.
+
+Lemma step_excl : forall c i c', excl_inv c -> step c i = Some c' -> excl_inv c'.
+Proof.
+  intros c i c' Inv Hs. unfold step in Hs.
+  destruct (nth_error c i) as [t|] eqn:En; [|discriminate].
+  destruct (can_step c t) eqn:Ec; [|discriminate]. injection Hs as <-.
+  intros l. specialize (Inv l).
+  pose proof (tot_update (cnt l) c i t (do_step t) En) as Uc.
+  pose proof (tot_update (cntw l) c i t (do_step t) En) as Uw.
+  unfold can_step in Ec. unfold do_step in *.
+  destruct (prog t) as [|[l0 m|l0 m] p] eqn:Ep; [discriminate| |].
+  - destruct m.
+    + (* read lock granted: nobody holds l0 in write mode *)
+      apply andb_true_iff in Ec. destruct Ec as [Ec _]. apply negb_true_iff in Ec.
+      pose proof (nobody_tot holds_w cntw l0 c (holds_w_cntw l0) Ec) as Z.
+      simpl in Uc, Uw. rewrite cnt_cons in Uc. rewrite cntw_cons in Uw. simpl in Uw.
+      rewrite andb_false_r in Uw. simpl in Uw.
+      destruct (N.eqb l0 l) eqn:El.
+      * apply N.eqb_eq in El. subst l0. left. lia.
+      * destruct Inv as [Inv|Inv]; [left | right]; lia.
+    + destruct (announced t) eqn:Ea.
+      * (* write lock granted: nobody holds l0 at all *)
+        apply negb_true_iff in Ec.
+        pose proof (nobody_tot holds cnt l0 c (holds_cnt l0) Ec) as Z.
+        simpl in Uc, Uw. rewrite cnt_cons in Uc. rewrite cntw_cons in Uw. simpl in Uw.
+        rewrite andb_true_r in Uw.
+        destruct (N.eqb l0 l) eqn:El.
+        -- apply N.eqb_eq in El. subst l0. right. lia.
+        -- destruct Inv as [Inv|Inv]; [left | right]; lia.
+      * simpl in Uc, Uw. destruct Inv as [Inv|Inv]; [left | right]; lia.
+  - (* release *)
+    simpl in Uc, Uw.
+    pose proof (cnt_remove_one l (l0, m) (held t)) as R1.
+    pose proof (cntw_remove_one l (l0, m) (held t)) as R2.
+    pose proof (cntw_le_cnt l (remove_one (l0, m) (held t))) as R3.
+    pose proof (tot_le (cntw l) (cnt l) (update c i (mk_thread (remove_one (l0, m) (held t)) false p)) (cntw_le_cnt l)) as R4.
+    destruct Inv as [Inv|Inv]; [left; lia|].
+    destruct R1 as [R1|R1]; [right; lia | left; lia].
+Qed.
+
+Lemma run_excl : forall sched c, excl_inv c -> excl_inv (run sched c).
+Proof.
+  induction sched as [|i s IH]; intros c H; simpl; [exact H|].
+  apply IH. destruct (step c i) as [c'|] eqn:Es; [eapply step_excl; eauto | exact H].
+Qed.
+
+Lemma init_excl : forall c, (forall t, In t c -> held t = []) -> excl_inv c.
+Proof.
+  intros c H l. left. unfold tot. induction c as [|t r IH]; simpl; [reflexivity|].
+  rewrite (H t (or_introl eq_refl)). simpl. apply IH. intros u Hu. apply H. right. exact Hu.
+Qed.
+
+Theorem mutual_exclusion : forall c0, (forall t, In t c0 -> held t = []) ->
+  forall sched i j t u l,
+    nth_error (run sched c0) i = Some t -> nth_error (run sched c0) j = Some u -> i <> j ->
+    holds_w l t = true -> holds l u = false /\ cnt l (held t) = 1%nat.
+Proof.
+  intros c0 H0 sched i j t u l Hi Hj Hne Hw.
+  pose proof (run_excl sched c0 (init_excl c0 H0) l) as Inv.
+  apply holds_w_cntw in Hw.
+  pose proof (tot_ge_one (cntw l) _ i t Hi) as G1.
+  destruct Inv as [Inv|Inv]; [lia|].
+  pose proof (tot_ge_two (cnt l) _ i j t u Hi Hj Hne) as G2.
+  pose proof (cntw_le_cnt l (held t)) as L.
+  split; [|lia].
+  destruct (holds l u) eqn:Eh; [|reflexivity]. apply holds_cnt in Eh. lia.
+Qed.
